@@ -134,7 +134,7 @@ class Val:
         r = Val(self.c * o.c, nf, df)
         if SQRT_ATOMS:
             for k in list(nf):
-                if k in SQRT_ATOMS and nf[k][1] >= 2:
+                if k in SQRT_ATOMS and nf[k][1] >= 2 and SQRT_ATOMS[k][0].eq(nf[k][0]):
                     t, pw = nf[k]
                     q = pw // 2
                     nf2 = dict(nf)
@@ -142,9 +142,9 @@ class Val:
                         nf2[k] = (t, pw - 2 * q)
                     else:
                         del nf2[k]
-                    return Val(r.c, nf2, df) * (SQRT_ATOMS[k] ** q)
+                    return Val(r.c, nf2, df) * (SQRT_ATOMS[k][1] ** q)
             for k in list(df):
-                if k in SQRT_ATOMS and df[k][1] >= 2:
+                if k in SQRT_ATOMS and df[k][1] >= 2 and SQRT_ATOMS[k][0].eq(df[k][0]):
                     t, pw = df[k]
                     q = pw // 2
                     df2 = dict(df)
@@ -152,7 +152,7 @@ class Val:
                         df2[k] = (t, pw - 2 * q)
                     else:
                         del df2[k]
-                    return Val(r.c, nf, df2) * (SQRT_ATOMS[k] ** (-q))
+                    return Val(r.c, nf, df2) * (SQRT_ATOMS[k][1] ** (-q))
         return r
 
     __rmul__ = __mul__
